@@ -53,6 +53,10 @@ def gen_cases(tier, seed):
             for variant in range(3):
                 j += 1
                 yield {'family': obs, 'idx': 10 ** 6 + j, 'seed': seed, 'edge': 'raw_csv_load', 'variant': variant}
+        if rep == 0:
+            # every observer once in a process whose locale is not UTF-8, over non-ASCII text
+            j += 1
+            yield {'family': 'c_locale', 'idx': 10 ** 6 + j, 'seed': seed}
         # resources whose paths differ only in their extension (figures.csv, figures.json): each is captured on its own
         for obs in ('dump_to_path', 'dump_to_zip'):
             for variant in range(2):
@@ -138,7 +142,62 @@ def proj(desc):
     return out
 
 
+C_LOCALE_SCRIPT = r'''
+import json, sys
+import dataflows as d
+# (ASCII-only source text: a C-locale interpreter cannot read anything else from its command line)
+rows = [{'id': i, 't': t} for i, t in enumerate(['plain', 'z\u00f3\u0142\u0107', '\u65e5\u672c\u8a9e', '\U0001F600 ok', 'fin'])]
+OBS = {'stream': lambda: d.stream('obs.ndjson'), 'checkpoint': lambda: d.checkpoint('obs', checkpoint_path='cpo'),
+       'dump_to_path': lambda: d.dump_to_path('obs_dump'), 'printer': lambda: d.printer(), 'validate': lambda: d.validate()}
+out = {}
+for name in ['none'] + sorted(OBS):
+    try:
+        steps = [[dict(r) for r in rows], d.update_resource(-1, name='t\u00e9st')] + ([OBS[name]()] if name != 'none' else []) + \
+            [d.add_field('z', 'integer', 1)]
+        res = d.Flow(*steps).results()
+        out[name] = [res[0], [r['name'] for r in res[1].descriptor['resources']]]
+    except Exception as e:
+        out[name] = 'FAILED: ' + str(getattr(e, 'cause', e))[:200]
+sys.stderr.write('RESULT ' + json.dumps(out) + chr(10))
+'''
+
+
+def run_c_locale(case):
+    import json
+    import subprocess
+    counters = {'downstream_compared': 0, 'observer_content_compared': 0, 'finalizer_calls_checked': 0}
+    env = dict(os.environ, PYTHONPATH=boot.REPO, LC_ALL='C', LANG='C', PYTHONUTF8='0', PYTHONCOERCECLOCALE='0',
+               PYTHONIOENCODING='ascii:backslashreplace')
+    viol = []
+    try:
+        p = subprocess.run([boot.PY, '-W', 'ignore', '-c', C_LOCALE_SCRIPT], capture_output=True, text=True, timeout=150,
+                           env=env, cwd=os.getcwd())
+    except subprocess.TimeoutExpired:
+        return dict(nontrivial=False, violations=[], counters=counters, cov={'observer_x_discarder_x_pos': {}},
+                    inconclusive='subprocess timed out')
+    line = next((ln for ln in p.stderr.splitlines() if ln.startswith('RESULT ')), None)
+    if line is None:
+        return dict(nontrivial=False, violations=[], counters=counters, cov={'observer_x_discarder_x_pos': {}},
+                    inconclusive='no result from the C-locale subprocess: %s' % p.stderr[-300:])
+    out = json.loads(line[7:])
+    base = out.pop('none')
+    cov = {}
+    for name, got in sorted(out.items()):
+        counters['downstream_compared'] += 1
+        counters['observer_content_compared'] += 1
+        cov['%s|c_locale|middle' % name] = 1
+        if got != base:
+            viol.append({'kind': 'observer_breaks_run' if isinstance(got, str) else 'downstream_rows',
+                         'mech': '%s/c_locale' % name, 'observer': name,
+                         'msg': 'in a process whose locale is not UTF-8 (LC_ALL=C) inserting %s changes the outcome: %r, without '
+                         'it %r' % (name, got if isinstance(got, str) else got[0][0][:2], base if isinstance(base, str) else base[0][0][:2])})
+    return dict(nontrivial=not isinstance(base, str), violations=viol, counters=counters,
+                cov={'observer_x_discarder_x_pos': cov}, sample={'c_locale': sorted(out)})
+
+
 def run_case(case):
+    if case['family'] == 'c_locale':
+        return run_c_locale(case)
     kind = case['family']
     rng = boot.rng(case['seed'], 'C05', case['idx'])
     d = lab.df()
